@@ -102,6 +102,11 @@ def configs(tier):
         for closure, size in itertools.product((False, True), ksizes):
             add(link="k", K=K, mode="unack", closure=closure, size=size, check_limit=2,
                 kinds=("drop", "dup", "delay", "flip", "reject"))
+    # pre-existing (longer) destination file, also inside a destination directory: stale bytes must not survive a reported success
+    for shape, nak in itertools.product(("existing", "dir_existing"), ("imm", "def")):
+        add(link="k", K=1, mode="ack", nak=nak, size=L + 1, shape=shape, ack_limit=2, nak_limit=2, kinds=("drop", "dup", "delay"))
+    for shape, closure in itertools.product(("existing", "dir_existing"), (False, True)):
+        add(link="k", K=1, mode="unack", closure=closure, size=L + 1, shape=shape, check_limit=2, kinds=("drop", "dup", "delay"))
     # null / modular checksum on the K-fault link (loss, duplication, reordering only): 3 segments, so that a
     # forgotten gap between two received segments is reachable
     for cks, nak in itertools.product(("null", "mod"), ("def", "imm")):
